@@ -19,8 +19,8 @@ import numpy as np
 import vlib
 from vlib import cz, cnat, cbool, clist
 
-HEADER = ("From Coq Require Import List ZArith Bool.\nImport ListNotations.\n"
-          "From QV Require Import Model.C20.\nOpen Scope Z_scope.\n")
+HEADER = ("From Coq Require Import List ZArith QArith Bool.\nImport ListNotations.\n"
+          "From QV Require Import Model.C20 Model.C20_b.\nOpen Scope Z_scope.\n")
 DTYPES = ["dia", "csr", "dense"]
 ROOT_DIAGS = "number of diagonals does not match number of offsets"
 
@@ -378,6 +378,64 @@ def gen_cases(ctx, rng):
         cases.append((("itd", json.dumps(form), sup),
                       "match implicit_tensor_dimensions (%s) %s with Ok r => Some r | Err _ => None end"
                       % (cf, cbool(sup)), itd_impl(form, sup), kind != "int"))
+    # ---- swap(N, M): the whole column table for small sizes, sampled rows across
+    # the 2^8 / 2^16 boundaries
+    def swap_impl(Na, Mb, rows):
+        def th():
+            sw = q.swap(Na, Mb)
+            A = sw.to("csr").data.as_scipy()
+            bad = []
+            if A.nnz != Na * Mb or np.any(A.data != 1) or list(A.indptr) != list(range(Na * Mb + 1)):
+                bad.append("not one unit entry per row")
+            return [int(A.indices[r]) for r in rows], bad
+        return th
+    for _ in range(12 if quick else 60):
+        Na, Mb = rng.randrange(1, 7), rng.randrange(1, 7)
+        cases.append((("swap", Na, Mb), "swap_cols %s %s" % (cnat(Na), cnat(Mb)),
+                      swap_impl(Na, Mb, list(range(Na * Mb))), Na > 1 and Mb > 1))
+    for Na, Mb in [(15, 17), (16, 16), (255, 257), (257, 255), (256, 256)]:
+        rows = sorted({0, 1, Na * Mb - 1, Na, Mb, 255, 256, 257} | {rng.randrange(Na * Mb) for _ in range(8)})
+        rows = [r for r in rows if r < Na * Mb]
+        cases.append((("swap_rows", Na, Mb, tuple(rows)),
+                      "map (swap_col_formula %s %s) %s" % (cz(Na), cz(Mb), clist(rows, cz)),
+                      swap_impl(Na, Mb, rows), True))
+
+    # ---- thermal_dm analytic populations, exact rationals (occupations for which
+    # every float operation of the implementation is exact)
+    def thermal_impl(N, nb):
+        def th():
+            from fractions import Fraction
+            d = q.thermal_dm(N, float(nb), method="analytic").diag()
+            bad = [] if not np.any(d.imag) else ["complex population"]
+            return [(Fraction(float(x.real)).numerator, Fraction(float(x.real)).denominator) for x in d], bad
+        return th
+    for nb, Nmax in [(1, 40), (3, 30), (7, 17), (15, 12)]:
+        for N in ([2, Nmax] if quick else [1, 2, 5, Nmax // 2, Nmax]):
+            cases.append((("thermal", N, nb),
+                          "map (fun x => (Qnum (Qred x), Zpos (Qden (Qred x)))) (thermal_analytic %s (%d # 1))"
+                          % (cnat(N), nb), thermal_impl(N, nb), N > 1))
+
+    # ---- qft: exponent of the root of unity at sampled entries
+    def qft_impl(N, pairs):
+        def th():
+            U = q.qft(N).full()
+            out, bad = [], []
+            for r, c in pairs:
+                z = U[r, c] * math.sqrt(N)
+                k = int(round(math.atan2(z.imag, z.real) * N / (2 * math.pi))) % N
+                if abs(z - complex(math.cos(2 * math.pi * k / N), math.sin(2 * math.pi * k / N))) > 1e-9:
+                    bad.append("entry (%d,%d) is not a root of unity / sqrt(N)" % (r, c))
+                out.append(k)
+            return out, bad
+        return th
+    for N in ([1, 2, 3, 5, 8, 16, 255, 257] if quick else [1, 2, 3, 4, 5, 7, 8, 12, 16, 64, 255, 256, 257]):
+        pairs = sorted({(0, 0), (N - 1, N - 1), (1 % N, N - 1), (N // 2, N // 2)}
+                       | {(rng.randrange(N), rng.randrange(N)) for _ in range(8)})
+        cases.append((("qft", N, tuple(pairs)),
+                      "map (fun p => Nat.modulo (qft_exponent (fst p) (snd p)) %s) %s" % (
+                          cnat(N), clist(pairs, lambda p: "(%s, %s)" % (cnat(p[0]), cnat(p[1])))),
+                      qft_impl(N, pairs), N > 2))
+
     # ---- hadamard_transform: sampled entries against the model (sign and the
     # exact common factor 2**(-N/2)); qubit counts across the 8-bit boundary
     from qutip.core import gates as G
@@ -434,6 +492,10 @@ def canon_model(key, v):
         return (ob(v[0]), ob(v[1]))
     if kind == "hadamard":
         return (v[0], v[1])
+    if kind in ("swap", "swap_rows", "qft"):
+        return list(v)
+    if kind == "thermal":
+        return [tuple(x) for x in v]
     if kind == "basis":
         return None if v is None else v[1]
     if kind in ("w", "ghz"):
@@ -679,6 +741,9 @@ def oracle(ctx, rng):
             bad.append("J^2 != j(j+1)")
         if not np.array_equal(2 * jx, jp + jm) or not np.array_equal(jm, jp.conj().T):
             bad.append("Jx != (J+ + J-)/2 exactly")
+        # the linear combinations of C20_spin_xyz_commutator, bit for bit
+        if not np.array_equal(jx, (jp + jm) * 0.5) or not np.array_equal(jy, jp * (-0.5j) + jm * (0.5j)):
+            bad.append("Jx/Jy are not (J+ + J-) 0.5 and J+ (-0.5i) + J- (0.5i)")
         if not np.array_equal(np.diag(jz), np.array([j - k for k in range(J + 1)], complex)):
             bad.append("Jz diagonal != j..-j")
         for b in bad:
@@ -1678,6 +1743,14 @@ def run(ctx):
         "oracle only",
         "Section hypotheses of Proofs/C20_alg.v: a commutative ring with an involutive "
         "conjugation that is a ring morphism (stands for the complex numbers)",
+        "Section hypotheses of Proofs/C20_qft.v: w with w^N = 1 such that w^d - 1 (0 < d < N) is "
+        "no zero divisor (stands for exp(2 pi i/N); the code's entries are tied to the exponent "
+        "table r*c by recovering the root index of sampled entries); C20_spin_xyz_commutator: "
+        "half + half = 1 and an arbitrary element im (stand for 0.5 and 1j; the linear "
+        "combinations are compared bit for bit with jmat(j,'x'|'y'))",
+        "thermal_dm is modelled in exact rationals; tied exactly for occupations 1, 3, 7, 15 "
+        "(all float operations of the implementation are exact there); the operator method's "
+        "log/exp are outside the model",
     ]
 
     # ---- translator (T): regenerate the gate tables from the source
@@ -1754,6 +1827,7 @@ def run(ctx):
     dist = {}
     rads = []
     mism = 0
+    mism_kind = {}
     if vals is not None:
         for (key, expr, th, nontriv), s in zip(cases, vals):
             dist[key[0]] = dist.get(key[0], 0) + 1
@@ -1778,7 +1852,8 @@ def run(ctx):
                         and key[0] in ("ladder", "jmat")):
                     continue
                 mism += 1
-                if mism <= 4:
+                mism_kind[key[0]] = mism_kind.get(key[0], 0) + 1
+                if mism_kind[key[0]] <= 2:          # a few examples per constructor family
                     ctx.violation("corr:" + key[0], "model-differs" if model != im else probs[0][:40],
                                   "model and implementation disagree on %r" % (key,),
                                   {"key": key, "model": model, "impl": im, "problems": probs,
